@@ -145,6 +145,7 @@ func checkC02(cfg *core.Config) int {
 		r := core.Rand(cfg.Seed, "typeprog-c02", i)
 		opts := synth.RandomTypeOpts(r)
 		opts.Unions = true
+		opts.IgnoreAlone = i%2 == 0
 		progs = append(progs, synth.NewTypeProg(cfg.Seed, i, r, opts))
 	}
 	progs = append(progs, pinnedPrograms("C02")...)
